@@ -108,7 +108,186 @@ func (m *merger) term(a, b *term.Term) *term.Term {
 func fail(why string) { panic(mergeFail{why}) }
 
 // merge2 merges b into a (a is consumed). Returns ok=false when the shapes differ.
+// sameState: read-only structural comparison used by the state-matching mode.
+func (e *Engine) sameState(a, b *State) bool {
+	if a.PC != b.PC || len(a.Threads) != len(b.Threads) || a.Clock != b.Clock || len(a.Quiesce) != len(b.Quiesce) || len(a.Tags) != len(b.Tags) {
+		return false
+	}
+	for i := range a.Threads {
+		ta, tb := a.Threads[i], b.Threads[i]
+		if ta == tb {
+			continue
+		}
+		if ta.ID != tb.ID || len(ta.Frames) != len(tb.Frames) || ta.NAlloc != tb.NAlloc || ta.NGo != tb.NGo ||
+			(ta.Pending == nil) != (tb.Pending == nil) || (ta.Start == nil) != (tb.Start == nil) || (ta.Panic == nil) != (tb.Panic == nil) {
+			return false
+		}
+		for j := range ta.Frames {
+			fa, fb := ta.Frames[j], tb.Frames[j]
+			if fa == fb {
+				continue
+			}
+			if fa.Fn != fb.Fn || fa.Block != fb.Block || fa.IP != fb.IP || len(fa.Defers) != len(fb.Defers) || len(fa.Regs) != len(fb.Regs) {
+				return false
+			}
+			for k := range fa.Regs {
+				ra, rb := fa.Regs[k], fb.Regs[k]
+				if ra == nil && rb == nil {
+					continue
+				}
+				if ra == nil || rb == nil || !sameValue(ra, rb) {
+					return false
+				}
+			}
+			for k := range fa.Defers {
+				da, db := fa.Defers[k], fb.Defers[k]
+				if da.Method != db.Method || len(da.Args) != len(db.Args) || (da.Fn == nil) != (db.Fn == nil) || (da.Recv == nil) != (db.Recv == nil) {
+					return false
+				}
+				if da.Fn != nil && !sameValue(da.Fn, db.Fn) {
+					return false
+				}
+				if da.Recv != nil && !sameValue(da.Recv, db.Recv) {
+					return false
+				}
+				for q := range da.Args {
+					if !sameValue(da.Args[q], db.Args[q]) {
+						return false
+					}
+				}
+			}
+		}
+		if ta.Pending != nil && ta.Pending != tb.Pending && !sameVisOp(ta.Pending, tb.Pending) {
+			return false
+		}
+		if ta.Start != nil && ta.Start != tb.Start {
+			if !sameValue(ta.Start.Fn, tb.Start.Fn) || len(ta.Start.Args) != len(tb.Start.Args) {
+				return false
+			}
+			for q := range ta.Start.Args {
+				if !sameValue(ta.Start.Args[q], tb.Start.Args[q]) {
+					return false
+				}
+			}
+		}
+		if ta.Panic != nil && ta.Panic != tb.Panic && !sameValue(ta.Panic.Val, tb.Panic.Val) {
+			return false
+		}
+	}
+	same := true
+	cmp := func(id ObjID, ob *Object) {
+		if !same {
+			return
+		}
+		oa := a.lookupObj(id)
+		if oa == ob {
+			return
+		}
+		if oa == nil || !sameObject(oa, ob) {
+			same = false
+		}
+	}
+	b.eachObjDiff(a, cmp)
+	if !same {
+		return false
+	}
+	if a.base != b.base {
+		// different layers: also every object of a must exist in b
+		a.eachObj(func(id ObjID, oa *Object) {
+			if same && b.lookupObj(id) == nil {
+				same = false
+			}
+		})
+		if !same {
+			return false
+		}
+	}
+	for i := range a.Quiesce {
+		if !sameValue(a.Quiesce[i], b.Quiesce[i]) {
+			return false
+		}
+	}
+	for i := range a.Tags {
+		if a.Tags[i].Name != b.Tags[i].Name || !sameValue(a.Tags[i].Val, b.Tags[i].Val) {
+			return false
+		}
+	}
+	return true
+}
+
+func sameVisOp(a, b *VisOp) bool {
+	if a.Kind != b.Kind || a.Ch != b.Ch || a.P != b.P || a.Instr != b.Instr || a.FromDefer != b.FromDefer || a.Fn != b.Fn ||
+		len(a.Cases) != len(b.Cases) || len(a.Args) != len(b.Args) || len(a.Env) != len(b.Env) || a.Delta != b.Delta {
+		return false
+	}
+	if (a.Val == nil) != (b.Val == nil) || (a.Val != nil && !sameValue(a.Val, b.Val)) {
+		return false
+	}
+	for i := range a.Cases {
+		ca, cb := a.Cases[i], b.Cases[i]
+		if ca.Ch != cb.Ch || ca.Send != cb.Send || (ca.Val == nil) != (cb.Val == nil) || (ca.Val != nil && !sameValue(ca.Val, cb.Val)) {
+			return false
+		}
+	}
+	for i := range a.Args {
+		if !sameValue(a.Args[i], b.Args[i]) {
+			return false
+		}
+	}
+	for i := range a.Env {
+		if !sameValue(a.Env[i], b.Env[i]) {
+			return false
+		}
+	}
+	return true
+}
+
+func sameObject(oa, ob *Object) bool {
+	if oa.Kind != ob.Kind {
+		return false
+	}
+	switch oa.Kind {
+	case OMem:
+		if len(oa.Cells) != len(ob.Cells) {
+			return false
+		}
+		for i := range oa.Cells {
+			if !sameValue(oa.Cells[i], ob.Cells[i]) {
+				return false
+			}
+		}
+	case OChan:
+		if oa.Cap != ob.Cap || len(oa.Buf) != len(ob.Buf) || oa.Closed != ob.Closed || oa.TimerAt != ob.TimerAt {
+			return false
+		}
+		for i := range oa.Buf {
+			if !sameValue(oa.Buf[i], ob.Buf[i]) {
+				return false
+			}
+		}
+	case OIter:
+		return oa.IterMap == ob.IterMap && oa.IterIdx == ob.IterIdx && oa.IterStr == ob.IterStr
+	case OMap:
+		if len(oa.Ents) != len(ob.Ents) {
+			return false
+		}
+		for i := range oa.Ents {
+			if oa.Ents[i].G != ob.Ents[i].G || !sameValue(oa.Ents[i].K, ob.Ents[i].K) || !sameValue(oa.Ents[i].V, ob.Ents[i].V) {
+				return false
+			}
+		}
+	}
+	return true
+}
+
 func (e *Engine) merge2(a, b *State) (res *State, ok bool) {
+	if !e.MergeFull {
+		if e.sameState(a, b) {
+			e.Stats.IdenticalMerges++
+			return a, true
+		}
+		return nil, false
+	}
 	// dry structural compatibility is checked on the fly; on failure a may have been partially
 	// modified, so work on a fork of a.
 	n := a.fork()
